@@ -27,18 +27,26 @@ inductive Val
   | ints (v : List Int)
   deriving DecidableEq, Repr, Inhabited
 
-abbrev Obj := String → Val
+/-- a Python object's attribute dictionary: association list, newest binding first -/
+abbrev Obj := List (String × Val)
 
-def Obj.empty : Obj := fun _ => .none
+def Obj.empty : Obj := []
+
+/-- `getattr(self, k)` (absent attributes read as `none`) -/
+def Obj.get : Obj → String → Val
+  | [], _ => .none
+  | (k', v) :: rest, k => if k = k' then v else Obj.get rest k
 
 /-- `setattr(self, k, v)` -/
-def Obj.set (o : Obj) (k : String) (v : Val) : Obj := fun k' => if k' = k then v else o k'
+def Obj.set (o : Obj) (k : String) (v : Val) : Obj := (k, v) :: o
 
 /-- `for key in keys: setattr(self, key, None)` -/
-def Obj.clear (o : Obj) (keys : List String) : Obj := fun k => if k ∈ keys then .none else o k
+def Obj.clear (o : Obj) : List String → Obj
+  | [] => o
+  | k :: ks => Obj.clear (o.set k .none) ks
 
 /-- `{key: getattr(self, key) for key in _STATE_KEYS}` -/
-def getState (keys : List String) (o : Obj) : List (String × Val) := keys.map (fun k => (k, o k))
+def getState (keys : List String) (o : Obj) : List (String × Val) := keys.map (fun k => (k, o.get k))
 
 /-- `set_state`: every key of the dictionary must be a state key (else `ValueError`). -/
 def setState (keys : List String) : List (String × Val) → Obj → Option Obj
@@ -72,7 +80,7 @@ structure Run (D A : Type) where
   tunes : List (Nat × Nat × Nat)
   stream : List D
 
-def point (o : Obj) : Val := o "current_point"
+def point (o : Obj) : Val := o.get "current_point"
 
 /-- a freshly constructed sampler with configuration attributes `cfg` -/
 def Run.fresh {D A : Type} (cfg : Obj) (stream : List D) : Run D A :=
@@ -186,24 +194,24 @@ def sumLast (acc : List Int) (k : Nat) : Int := (acc.drop (acc.length - k)).fold
     tuned `scale`, NUTS-like `eps_bar` that is `"unset"` until the first `_pre_sample`/`_pre_warmup`. -/
 def toySpec : Spec Int Int where
   stateKeys := ["current_point", "scale", "eps_bar"]
-  init := fun o => ((o.set "current_point" (o "initial_point")).set "scale" (o "initial_scale")).set "eps_bar" .unset
+  init := fun o => ((o.set "current_point" (o.get "initial_point")).set "scale" (o.get "initial_scale")).set "eps_bar" .unset
   initAcc := fun _ => [1]
   step := fun o ds =>
     match ds with
     | [] => (o, 0, [])
     | d :: rest =>
-      let x := getInts (o "current_point")
-      let s := getInt (o "scale")
+      let x := getInts (o.get "current_point")
+      let s := getInt (o.get "scale")
       let prop := x.map (fun xi => xi + s * d)
       if d % 2 = 0 then (o.set "current_point" (.ints prop), 1, rest)
       else match rest with
         | [] => (o, 0, [])
         | u :: rest' =>
-          if u ≤ getInt (o "eps_bar") then (o.set "current_point" (.ints prop), 1, rest') else (o, 0, rest')
+          if u ≤ getInt (o.get "eps_bar") then (o.set "current_point" (.ints prop), 1, rest') else (o, 0, rest')
   tune := fun o acc skip cnt =>
-    (o.set "scale" (.int (getInt (o "scale") + sumLast acc skip + (cnt : Int)))).set "eps_bar" (.int (getInt (o "eps_bar") + 1))
-  preSample := fun o => if o "eps_bar" = .unset then o.set "eps_bar" (o "scale") else o
-  preWarmup := fun o => if o "eps_bar" = .unset then o.set "eps_bar" (.int 1) else o
+    (o.set "scale" (.int (getInt (o.get "scale") + sumLast acc skip + (cnt : Int)))).set "eps_bar" (.int (getInt (o.get "eps_bar") + 1))
+  preSample := fun o => if o.get "eps_bar" = .unset then o.set "eps_bar" (o.get "scale") else o
+  preWarmup := fun o => if o.get "eps_bar" = .unset then o.set "eps_bar" (.int 1) else o
 
 /-- Replay instance used for the library's own samplers: a transition's outcome (identifier of
     the new point, acceptance flag) is data recorded from the implementation and read off the
@@ -211,7 +219,7 @@ def toySpec : Spec Int Int where
     model's. -/
 def replaySpec : Spec Int Int where
   stateKeys := ["current_point"]
-  init := fun o => o.set "current_point" (o "initial_point")
+  init := fun o => o.set "current_point" (o.get "initial_point")
   initAcc := fun _ => [1]
   step := fun o ds =>
     match ds with
